@@ -782,7 +782,15 @@ namespace occa {
           vendor_ = (1 << vendorBit);
         }
 
-        io::write(outFilename, std::to_string(vendor_));
+        // Publish the result atomically: its existence marks the lookup as complete
+        io::stageFile(
+          outFilename,
+          false,
+          [&](const std::string &tempFilename) -> bool {
+            io::write(tempFilename, std::to_string(vendor_));
+            return true;
+          }
+        );
 
         return vendor_;
       }
